@@ -149,11 +149,17 @@ func seekEndBody(n datamodel.Node) func() string {
 }
 
 func c17Scenarios(quick bool) []c17Scenario {
-	b2 := []int{0, 1, 2, 1000}
-	b3 := []int{0, 1, 2}
+	// a stateless search without partial-order reduction cannot finish the
+	// unbounded space (600k executions were not enough for 2 threads with 45
+	// schedule points); bounds are iterated instead and the completed bound is
+	// reported
+	b2 := []int{0, 1, 2, 3, 4}
+	b3 := []int{0, 1, 2, 3}
+	b3small := b3 // 3-thread scenarios with few schedule points
 	if quick {
 		b2 = []int{0, 1, 2}
 		b3 = []int{0, 1}
+		b3small = []int{0, 1, 2}
 	}
 	warm := func(n datamodel.Node) { n.Length() }
 	return []c17Scenario{
@@ -173,7 +179,7 @@ func c17Scenarios(quick bool) []c17Scenario {
 			bodies: func(i *c17Inst, n datamodel.Node) []func() string {
 				return []func() string{lengthBody(n), lengthBody(n)}
 			}},
-		{Name: "S4-warm-lookups-and-length", Threads: 3, Bounds: b3, setup: c17Dir, prelude: warm,
+		{Name: "S4-warm-lookups-and-length", Threads: 3, Bounds: b3small, setup: c17Dir, prelude: warm,
 			bodies: func(i *c17Inst, n datamodel.Node) []func() string {
 				return []func() string{lookupBody(n, i.names[0]), lookupBody(n, i.names[1]), lengthBody(n)}
 			}},
@@ -185,7 +191,7 @@ func c17Scenarios(quick bool) []c17Scenario {
 			bodies: func(i *c17Inst, n datamodel.Node) []func() string {
 				return []func() string{readAllBody(n, 4), readAllBody(n, 5)}
 			}},
-		{Name: "S5b-file-readers-and-seek-end", Threads: 3, Bounds: b3, setup: c17File,
+		{Name: "S5b-file-readers-and-seek-end", Threads: 3, Bounds: b3small, setup: c17File,
 			bodies: func(i *c17Inst, n datamodel.Node) []func() string {
 				return []func() string{readAllBody(n, 4), seekEndBody(n), seekEndBody(n)}
 			}},
